@@ -50,6 +50,8 @@ EXTRA_AUDIT = ("HedVerif.Props.C12Closed", [
     "HedVerif.C12.sidecar_validateW_true",
     "HedVerif.C12.sidecar_filter_partial",
     "HedVerif.C12.sidecar_filter",
+    "HedVerif.C12.fold_preserves_length",
+    "HedVerif.C12.offsets_length_changing_fold_counterexample",
 ])
 BUDGET = {"quick": 900, "thorough": 3600}
 
@@ -92,6 +94,43 @@ def span_of(issue):
     return hs, hs._get_org_span(tag)
 
 
+# internal kinds of the two errors `_find_tag_entry` emits (NO_VALID_TAG_FOUND, INVALID_PARENT_NODE; published as TAG_INVALID /
+# TAG_EXTENSION_INVALID, codes they share with other rules); `_kind` is kept on every issue by the harness-side recorder
+LOOKUP_KINDS = ("invalidTag", "invalidParent")
+
+
+def is_lookup(issue):
+    return issue.get("_kind") in LOOKUP_KINDS
+
+
+def casefold_shifted(issue):
+    """the family of finding C12-casefold-length-offsets, decided here without hed: a lookup error (offsets measured by
+    `_find_tag_entry` on the casefolded tag) on a tag holding, before the reported end offset (folded coordinates), a
+    character whose casefold is not one character long"""
+    if not is_lookup(issue) or "index_in_tag" not in issue:
+        return False
+    text = getattr(issue.get("source_tag"), "org_tag", None)
+    end = issue.get("index_in_tag_end")
+    if not isinstance(text, str) or end is None:
+        return False
+    pos = 0
+    for c in text:
+        if pos >= end:
+            break
+        if len(c.casefold()) != 1:
+            return True
+        pos += len(c.casefold())
+    return False
+
+
+def whole_components(tagtext, a, b):
+    """a lookup error names whole path components: it starts at the tag's (or namespace's) start or after a slash, ends at
+    a slash or the tag's end, and has no slash at either edge"""
+    frag = tagtext[a:b]
+    return (a == 0 or tagtext[a - 1] in "/:") and (b >= len(tagtext) or tagtext[b] == "/") and bool(frag) \
+        and frag[0] != "/" and frag[-1] != "/"
+
+
 def check_issue(ctx, issue, where, passes):
     """field and offset clauses on one implementation issue; returns model request or None"""
     if not isinstance(issue.get("code"), str) or not isinstance(issue.get("message"), str) or issue.get("severity") not in (1, 10):
@@ -119,7 +158,9 @@ def check_issue(ctx, issue, where, passes):
     if not (0 <= s <= ci <= cie <= e <= len(text)):
         # known family: character errors of a Def value are indexed in the definition's placeholder tag
         sig = "C12-def-value-char-index" if getattr(issue["source_tag"], "short_base_tag", "") in ("Def", "Def-expand") \
-            and "index_in_tag" in issue else None
+            and "index_in_tag" in issue else ("C12-casefold-length-offsets" if casefold_shifted(issue) else None)
+        if sig == "C12-casefold-length-offsets":
+            ctx.count("casefold-family:offsets-outside")
         ctx.violation("offsets-outside-tag-span-or-text", where,
                       {"code": issue["code"], "span": [s, e], "char": [ci, cie], "len": len(text)}, sig)
         return None
@@ -139,6 +180,16 @@ def check_issue(ctx, issue, where, passes):
         if frag != quoted or (frag and frag not in issue["message"]):
             ctx.violation("offsets-do-not-select-quoted-fragment", where,
                           {"code": issue["code"], "fragment": frag, "message": issue["message"][:160]})
+        # the offending fragment of a lookup error is the unknown first term / the misplaced known term: whole components
+        if is_lookup(issue) and not whole_components(tag.org_tag, issue["index_in_tag"], issue["index_in_tag_end"]):
+            fam = casefold_shifted(issue)
+            if fam:
+                ctx.count("casefold-family:fragment-not-the-term")
+            ctx.violation("lookup-error-fragment-is-not-the-offending-term", where,
+                          {"code": issue["code"], "tag": tag.org_tag, "fragment": frag},
+                          "C12-casefold-length-offsets" if fam else None)
+        elif is_lookup(issue):
+            ctx.count("lookup-fragment-checked" + ("-nonascii" if any(ord(c) > 127 for c in tag.org_tag) else ""))
     req = {"op": "c12.decorate", "hasString": True, "passes": passes,
            "issue": {"severity": issue["severity"], "span": [s, e], "modified": bool(getattr(tag, "_tag", None)),
                      "idx": issue.get("index_in_tag"), "idxEnd": issue.get("index_in_tag_end")}}
@@ -769,6 +820,58 @@ def run_closed(ctx):
     su.real.cleanup()
 
 
+CASEFOLD_WITNESS = ["ß-band", "ﬁx/Red", "Event/ßß/Red"]
+# characters whose casefold is longer than one character, and length-preserving non-ASCII controls
+FOLD_LONG = ["ß", "ﬁ", "ﬀ", "ΐ", "ǰ", "İ", "ŉ"]
+FOLD_SAME = ["é", "Σ"]
+
+
+def casefold_witnesses(ctx, schema):
+    """deterministic family of finding C12-casefold-length-offsets, on every seed: three strings, a table cell, a sidecar
+    entry; judged by the ordinary offset / fragment oracle of `check_issue`"""
+    import io
+    from hed import HedString, Sidecar
+    from hed.errors.error_reporter import ErrorHandler
+    from hed.errors.error_types import ErrorContext
+    for s in CASEFOLD_WITNESS:
+        where = {"entry": "string", "text": s}
+        hs = HedString(s, schema)
+        eh = ErrorHandler()
+        eh.push_error_context(ErrorContext.HED_STRING, hs)
+        for i in hs.validate(error_handler=eh):
+            check_issue(ctx, i, where, 2)
+        ctx.case(("casefold", s), nontrivial=True)
+    where = {"entry": "table", "cells": ["Red", "Blue, ß-band", "Event/ßß/Red"], "cats": ["a", "a", "a"], "onset": False}
+    for i in old_table(where, schema, True):
+        check_issue(ctx, i, where, 1)
+    ctx.case(("casefold", "table"), nontrivial=True)
+    doc = {"c": {"HED": {"k": "Event/ßß/Red", "m": "ﬁx/Red"}}}
+    where = {"entry": "sidecar-doc", "doc": doc}
+    for i in Sidecar(io.StringIO(json.dumps(doc))).validate(schema, error_handler=ErrorHandler()):
+        check_issue(ctx, i, where, 1)
+    ctx.case(("casefold", "sidecar"), nontrivial=True)
+
+
+def gen_fold_strings(ctx, n):
+    """tags with a character of `FOLD_LONG` / `FOLD_SAME` in an unknown first term, in an extension before a misplaced known
+    term, after it, or in a value — mixed with ordinary fragments"""
+    rng = ctx.rng
+    shapes = ["{c}-band", "{c}x/Red", "Event/{c}{c}/Red", "Item/{c}/Sensory-event", "Item/x{c}/Blue/Qq", "Red/{c}x", "Item/Red/{c}",
+              "Label/{c}", "xx:{c}q", "Item/{c}x", "Zork{c}/Red", "Event/Q/{c}/Green", "Item/Aa/Red/{c}"]
+    plain = ["Red", "Blue", "(Green, Item/Object)", "Zork", "Label/abc", "Item/Ext"]
+    out = []
+    for _ in range(n):
+        c = rng.choice(FOLD_LONG) if rng.random() < 0.65 else rng.choice(FOLD_SAME)
+        parts = [rng.choice(shapes).format(c=c)]
+        for _ in range(rng.randint(0, 2)):
+            parts.insert(rng.randint(0, len(parts)), rng.choice(plain))
+        t = ", ".join(parts)
+        if rng.random() < 0.2:
+            t = "(" + t + ")"
+        out.append(t)
+    return out
+
+
 SIDECAR_CAT = {"HED": {"a": "Red, Zork", "b": "(Blue, Blue)", "c": "Green/Ext"}}
 
 
@@ -796,10 +899,14 @@ def run(ctx):
     ctx.extra["rule"] = ("issues produced by string / sidecar / table validation of generated inputs, warnings on and off, with and "
                          "without a caller-supplied handler holding a HED_STRING context, decorated once more; non-trivial = an "
                          "issue carrying character offsets")
+    from harness.props.c10 import install_kind_recorder
+    install_kind_recorder()
     load_sort_names(ctx)
     check_dataset_order(ctx, schema)
     reqs, expect = [], []
+    casefold_witnesses(ctx, schema)
     strings = ["Red/xyz, Blue", "Duration/3 Seconds", ")("] + gen_strings(ctx, 2500 if ctx.quick() else 40000)
+    strings += ["é-band", "Σx/Red", "Event/éé/Red"] + gen_fold_strings(ctx, 400 if ctx.quick() else 6000)
     all_issues = []
     for s in strings:
         where = {"entry": "string", "text": s}
@@ -980,7 +1087,16 @@ def replay(ctx, rec):
     from hed.errors.error_types import ErrorContext
     case = rec.get("case") or (rec.get("disagreements") or [{}])[0].get("case")
     entry = (case or {}).get("entry")
+    from harness.props.c10 import install_kind_recorder
+    install_kind_recorder()
     load_sort_names(ctx)
+    if entry == "sidecar-doc":
+        import io
+        from hed import Sidecar
+        for i in Sidecar(io.StringIO(json.dumps(case["doc"]))).validate(load_schema_version("8.3.0"), error_handler=ErrorHandler()):
+            print(i["code"], i.get("char_index"), i.get("char_index_end"))
+            check_issue(ctx, i, case, 1)
+        return
     if entry == "dataset":
         check_dataset_order(ctx, load_schema_version("8.3.0"))
         return
